@@ -160,4 +160,113 @@ def Event.key : Event → Key
 /-- the stream of key `k` inside a delivery order -/
 def streamOf (k : Key) (es : List Event) : List Event := es.filter (fun e => e.key = k)
 
+/-! The database-config handler (`stateManager.onDatabaseCfgChange` → `shardAssignment`) and the
+repository it works on. Two notions of "alive" exist side by side: the registration keys
+`/storage/live/nodes/*` in the repository (`Store.reg`, ground truth: a node is alive while its
+ephemeral key exists) and the master's event-fed `StorageState.LiveNodes` (`St.live`), which lags
+behind the keys by the node events that are still queued. Placement reads the keys. -/
+
+/-- the repository: registration keys of the storage nodes, persisted shard assignments -/
+structure Store where
+  reg : List Nat
+  asgs : List (Nat × Assignment)
+  deriving Repr
+
+/-- which repository calls of ONE handled config event fail (transient faults) -/
+structure Faults where
+  get : Bool    -- `masterRepo.Get` of `/database/assign/<db>` (any error but ErrNotExist)
+  list : Bool   -- `repo.List` of the registration keys inside `storage.GetLiveNodes`
+  put : Bool    -- `masterRepo.Put` of the assignment key (the first of the two writes)
+  deriving Repr, DecidableEq
+
+def Faults.none : Faults := { get := false, list := false, put := false }
+
+/-- what `GetShardAssign` hands to `shardAssignment()` -/
+inductive GetRes
+  | notExist                 -- `state.ErrNotExist`: the database has no assignment yet
+  | failed                   -- any other error: the handler gives up on the event
+  | found (a : Assignment)
+  deriving Repr
+
+/-- `stateManager.GetShardAssign`: the repository error is passed on as it is -/
+def getShardAssign (r : Store) (db : Nat) (f : Faults) : GetRes :=
+  if f.get then .failed
+  else match Map.lookup r.asgs db with
+    | none => .notExist
+    | some a => .found a
+
+/-- `storageCluster.GetLiveNodes`: lists the registration keys; the manager's own view of the live
+nodes (`view` = `St.live`) is NOT consulted -/
+def getLiveNodes (r : Store) (_view : List Nat) (f : Faults) : Option (List Nat) :=
+  if f.list then none else some r.reg
+
+/-- `masterRepo.Put(assign key)` followed by `storage.SaveDatabaseAssignment` (same key, same
+value): the value is persisted iff the first write succeeds -/
+def putAsg (r : Store) (db : Nat) (a : Assignment) (f : Faults) : Store :=
+  if f.put then r else { r with asgs := Map.upsert r.asgs db a }
+
+/-- `stateManager.shardAssignment(cfg)` on the repository. `start`/`shift` are the two `rand.Intn`
+draws of the assignment loop. Every error path returns without writing. -/
+def cfgHandle (r : Store) (view : List Nat) (db : Nat) (numShards rf : Int) (start shift : Nat)
+    (f : Faults) : Store :=
+  match getShardAssign r db f with
+  | .failed => r                                   -- "get shard assign error": return
+  | .notExist =>                                   -- createShardAssignment(cluster, cfg, -1, -1)
+    match getLiveNodes r view f with
+    | none => r
+    | some [] => r                                 -- ErrNoLiveNode
+    | some (n :: ns) =>
+      match shardAssignment (n :: ns) numShards rf start shift 0 with
+      | .error _ => r
+      | .ok a => putAsg r db a f
+  | .found a =>
+    if (a.length : Int) > numShards then r         -- panic("not implemented"), recovered in processEvent
+    else if (a.length : Int) < numShards then      -- modifyShardAssignment: add shards from id len(Shards)
+      match getLiveNodes r view f with
+      | none => r
+      | some [] => r
+      | some (n :: ns) =>
+        match modifyShardAssignment (n :: ns) numShards rf a start shift a.length with
+        | .error _ => r
+        | .ok a' => putAsg r db a' f
+    else putAsg r db a f                           -- unchanged: re-trigger the assignment event
+
+/-! The whole system: repository, the storage-node watch (registration changes whose event has not
+reached the manager yet) and the manager. -/
+structure World where
+  store : Store
+  nodeq : List Event
+  st : St
+
+def World.init : World := { store := { reg := [], asgs := [] }, nodeq := [], st := St.init }
+
+inductive WEvent
+  | register (id : Nat)          -- the node's ephemeral key appears; NodeStartup is queued
+  | crash (id : Nat)             -- the key vanishes (crash / lease expiry); NodeFailure is queued
+  | deliverNode                  -- the manager handles the oldest queued node event
+  | cfg (db : Nat) (numShards rf : Int) (start shift : Nat) (f : Faults)   -- create / grow / alter
+  | deliverAsg (db : Nat)        -- the assignment watch hands over what is persisted for `db`
+  | drop (db : Nat)
+  deriving Repr
+
+def wstep (w : World) : WEvent → World
+  | .register id =>
+    { w with store := { w.store with reg := insertLive w.store.reg id }, nodeq := w.nodeq ++ [.nodeUp id] }
+  | .crash id =>
+    { w with store := { w.store with reg := w.store.reg.filter (· ≠ id) }, nodeq := w.nodeq ++ [.nodeDown id] }
+  | .deliverNode =>
+    match w.nodeq with
+    | [] => w
+    | e :: t => { w with st := step w.st e, nodeq := t }
+  | .cfg db numShards rf start shift f =>
+    { w with store := cfgHandle w.store w.st.live db numShards rf start shift f, st := step w.st (.dbCfg db) }
+  | .deliverAsg db =>
+    match Map.lookup w.store.asgs db with
+    | none => w
+    | some a => { w with st := step w.st (.assignChanged db a) }
+  | .drop db =>
+    { w with store := { w.store with asgs := Map.erase w.store.asgs db }, st := step w.st (.dropDb db) }
+
+def wrun (w : World) (es : List WEvent) : World := es.foldl wstep w
+
 end LinVerif.Master
